@@ -2335,6 +2335,10 @@ fn foreach_init(xs: &mut State) -> Xresult {
         Cell::Vector(x) => x.len(),
         other => return Err(Xerr::type_not_supported(other.clone())),
     };
+    if limit == 0 {
+        // the loop body, which takes the collection off the stack, is skipped entirely
+        xs.pop_data()?;
+    }
     xs.push_data(Cell::from(limit))?;
     xs.push_data(Cell::from(0))
 }
